@@ -430,6 +430,9 @@ def gen_cases(tier, seed):
                 shapes.append({"levels": levels, "raise_at": raise_at})
     for i in range(0, len(shapes), 8):
         cases.append({"mode": "disable", "shapes": shapes[i:i + 8], "seed": rng.getrandbits(32)})
+    # the repository's own tests with the atomicity contract riding on every validator descriptor
+    cases.append({"mode": "repo_tests", "seed": 0, "timeout": 600,
+                  "files": ["tests/test_validators.py", "tests/test_json.py", "tests/test_encoding.py", "tests/test_message_version.py"]})
     return cases
 
 
@@ -438,6 +441,26 @@ def run_case(case, tier):
     res = {"violations": [], "counters": {}, "sets": {}, "sig": sig_of({k: case[k] for k in case if k != "n"}), "nontrivial": False}
     mon = Monitor(res)
     rng = random.Random(case["seed"])
+    if case["mode"] == "repo_tests":
+        import json as _json, os as _os, subprocess as _sp, sys as _sys
+        repo = _os.environ.get("VF_REPO", "/repo")
+        rep = _os.path.join(_os.environ["VF_SCRATCH"], f"contracts-{_os.getpid()}.json")
+        env = dict(_os.environ, VF_CONTRACT_REPORT=rep, PYTHONPATH=_os.environ.get("VF_ROOT", "/verif") + ":" + repo + "/src")
+        r = _sp.run([_sys.executable, "-m", "pytest", "-q", "-p", "no:cacheprovider", "-p", "vf.contracts_plugin"] + case["files"], cwd=repo, env=env,
+                    stdin=_sp.DEVNULL, capture_output=True, text=True, timeout=550)
+        if not _os.path.exists(rep):
+            res["inconclusive"] = "contract plugin produced no report: " + (r.stdout + r.stderr)[-400:]
+            return res
+        st = _json.load(open(rep))
+        mon.bump("contract_evaluations_in_repo_tests", st["evaluations"])
+        mon.bump("contract_raising_assignments_in_repo_tests", st["raised"])
+        for v in st["violations"]:
+            mon.V.append({"mech": "not_atomic_in_repo_tests:" + v["where"], "detail": f"while the repository's own tests ran: {v}"})
+        if st["evaluations"] == 0:
+            res["inconclusive"] = "contracts were never evaluated while the repository's tests ran (wrappers bypassed)"
+        res["nontrivial"] = st["raised"] > 0
+        res["sample"] = {"repo_tests": case["files"], "contract_evaluations": st["evaluations"], "raising": st["raised"], "pytest_exit": st["exitstatus"]}
+        return res
     if case["mode"] == "disable":
         for sh in case["shapes"]:
             disable_program(mon, mod, rng, sh)
